@@ -462,7 +462,14 @@ pub fn gen_hostile_slider(rng: &mut Rng, time: i64) -> String {
     let k2 = k1 + rng.range(1, 8);
     let (bx, by) = (ax + dx * k1, ay + dy * k1);
     let (cx, cy) = (ax + dx * k2 + rng.range(-1, 1), ay + dy * k2 + rng.range(-1, 1));
-    let path = match rng.below(8) {
+    let path = match rng.below(9) {
+        8 => {
+            // a long zigzag across the whole coordinate range (path length ~1e7..1e8), usually without a declared length
+            let n = 40 + rng.below(360);
+            let e = *rng.pick(&[131_072i64, 131_072, 100_000, 65_536]);
+            let pts: Vec<String> = (0..n).map(|i| if i % 2 == 0 { format!("{e}:{e}") } else { format!("-{e}:-{e}") }).collect();
+            format!("{}|{}", rng.pick(&["L", "L", "B", "C"]), pts.join("|"))
+        }
         0 | 1 => format!("P|{bx}:{by}|{cx}:{cy}"),
         2 | 3 | 4 => format!("{}|{}:{}|P|{ax}:{ay}|{bx}:{by}|{cx}:{cy}", rng.pick(&["L", "B", "C"]), rng.range(0, 50), rng.range(0, 50)),
         5 => format!("P|{}:{}|{}:{}", rng.range(20_000, 131_072), rng.range(20_000, 131_072), rng.range(-131_072, 0), rng.range(20_000, 131_072)), // huge arc
@@ -474,7 +481,8 @@ pub fn gen_hostile_slider(rng: &mut Rng, time: i64) -> String {
     };
     let len = *rng.pick(&["", "", ",0", ",100000", ",131072", ",1", ",0.0001", ",-5", ",1e-14", ",1e-300", ",5e-324"]);
     let time = if rng.chance(1, 8) { *rng.pick(&[2_147_483_000i64, 1_000_000_000, 2_000_000_000]) + time % 1000 } else { time };
-    let slides = rng.range(1, 3);
+    // (a zigzag with many repeats: bounded work only as long as the walked length per span is capped)
+    let slides = if path.len() > 400 && rng.chance(1, 2) { *rng.pick(&[50i64, 200, 120]) } else { rng.range(1, 3) };
     let (x, y) = if rng.chance(1, 2) { (0, 0) } else { (rng.range(-131_072, 131_072), rng.range(-131_072, 131_072)) };
     if len.is_empty() {
         format!("{x},{y},{time},2,0,{path},{slides}")
@@ -616,6 +624,18 @@ pub fn gen_osu(rng: &mut Rng) -> String {
                 }
             }
             "Events" => {
+                if rng.chance(1, 25) {
+                    // break periods en masse: overlapping chains, nested, duplicated, in no particular order
+                    let n = 21 + rng.below(90);
+                    let mut v: Vec<(i64, i64)> = (0..n).map(|_| { let s0 = rng.range(0, 20_000); (s0, s0 + rng.range(0, 4000)) }).collect();
+                    if rng.chance(1, 2) {
+                        v.sort_unstable();
+                        v.reverse();
+                    }
+                    for (a, b) in v {
+                        o.push_str(&format!("{},{a},{b}{nl}", rng.pick(&["2", "Break"])));
+                    }
+                }
                 for _ in 0..rng.below(6) {
                     let l = match rng.below(12) {
                         0 => format!("0,0,\"{}\",0,0", rng.pick(&["bg.jpg", "b g.png", "x.avi"])),
@@ -637,7 +657,8 @@ pub fn gen_osu(rng: &mut Rng) -> String {
             }
             "TimingPoints" => {
                 let mut t = time as f64;
-                for _ in 0..1 + rng.below(8) {
+                let many = if rng.chance(1, 25) { 25 + rng.below(120) } else { 0 };
+                for _ in 0..1 + rng.below(8) + many {
                     o.push_str(&gen_timing_line(rng, t));
                     o.push_str(nl);
                     match rng.below(5) {
@@ -663,7 +684,8 @@ pub fn gen_osu(rng: &mut Rng) -> String {
                 }
             }
             _ => {
-                for _ in 0..rng.below(12) {
+                let many = if rng.chance(1, 30) { 25 + rng.below(100) } else { 0 };
+                for _ in 0..rng.below(12) + many {
                     o.push_str(&gen_hit_object(rng, time, mode));
                     o.push_str(nl);
                     time += match rng.below(6) {
